@@ -134,6 +134,29 @@ var c13Ops = []c13Op{
 			}
 		}
 	})},
+	// what the query engine does in this order: interval first (it is remembered), expansion on a copy, then the other
+	// accessors on the result - whose GROUP BY list is a different one
+	{"interval, RewriteFields, offset", onSelect(func(q *influxql.SelectStatement) {
+		_, _ = q.GroupByInterval()
+		_, _ = q.GroupByOffset()
+		_ = q.ColumnNames()
+		for v := 0; v < 4; v++ {
+			if r, err := q.RewriteFields(c13Mapper{v}); err == nil && r != nil {
+				_, _ = r.GroupByOffset()
+				_, _ = r.GroupByInterval()
+				_, _ = r.Dimensions.Normalize()
+				_ = r.ColumnNames()
+				c := r.Clone()
+				c.Dimensions = nil
+				_, _ = c.GroupByOffset()
+				_, _ = c.GroupByInterval()
+				if len(r.Dimensions) > 0 {
+					c.Dimensions = r.Dimensions[:1]
+					_, _ = c.GroupByOffset()
+				}
+			}
+		}
+	})},
 	{"RewriteFields", onSelect(func(q *influxql.SelectStatement) {
 		for v := 0; v < 4; v++ {
 			if r, err := q.RewriteFields(c13Mapper{v}); err == nil && r != nil {
@@ -281,6 +304,11 @@ func c13One(o *out, text string, tag string) {
 }
 
 var c13Witnesses = []string{
+	// the time column under EVERY operator the parser lets into a condition, on either side, alone and next to others
+	"SELECT v FROM m WHERE 5 + time", "SELECT v FROM m WHERE time + 5", "SELECT v FROM m WHERE now() - time", "SELECT v FROM m WHERE value & time", "SELECT v FROM m WHERE time | 1", "SELECT v FROM m WHERE 2 ^ time",
+	"SELECT v FROM m WHERE 5 * time", "SELECT v FROM m WHERE 10 / time", "SELECT v FROM m WHERE 10 % time AND x = 1", "SELECT v FROM m WHERE x = 1 AND (now() - time)", "SELECT v FROM m WHERE 5 =~ time", "SELECT v FROM m WHERE 'a' !~ time",
+	"SELECT mean(value) FROM cpu GROUP BY *, time(1m, 10s)", "SELECT mean(v) FROM m GROUP BY /nomatch/, /x/, time(5m, 1s)", "SELECT mean(v) FROM m GROUP BY *, *, *, time(1m, 1s), host", "SELECT mean(v) FROM m GROUP BY time(1m), *",
+	"SELECT v FROM m WHERE 1 <> time", "SELECT v FROM m WHERE 1 != time", "SELECT v FROM m WHERE time AND 1", "SELECT v FROM m WHERE 1 OR time", "DELETE FROM m WHERE 5 - time", "SHOW TAG KEYS WHERE 7 * time",
 	"SELECT top() FROM m", "SELECT bottom() FROM m", "SELECT top(a) FROM m", "SELECT v FROM m GROUP BY time(0s, 1s)", "SELECT v FROM m GROUP BY time(0s, now())", "SELECT v FROM m GROUP BY time(1m - 1m, now())", "SELECT v FROM m GROUP BY time(1m, now())",
 	"SELECT v FROM m GROUP BY time(0s, '2000-01-01T00:00:00Z')", "SELECT v FROM m GROUP BY time(2m - 1m - 1m, now() - 1h)", "SELECT x FROM (SELECT top(value) FROM cpu)", "SELECT x FROM (SELECT bottom(value) FROM cpu)",
 	"SELECT * FROM (SELECT top(value) FROM cpu)", "SELECT x FROM (SELECT top(value, 1) FROM cpu)", "SELECT v FROM m GROUP BY time()", "SELECT v FROM m GROUP BY time(x)",
